@@ -194,3 +194,17 @@ def ruse(h, x):
 @task(cache_scope="NONE")
 def nocache(x):
     return x
+
+
+import dataclasses  # noqa: E402
+
+
+@dataclasses.dataclass
+class DC:
+    a: object
+    b: object
+
+
+@task()
+def mkerr(x):
+    return ValueError(f"t{x}")
